@@ -285,7 +285,8 @@ def r11_3(chk):
     k = key(m, "_indexed", "exact on all equality patterns of <= 5 columns")
     bad, n = [], 0
     try:
-        for size in range(0, 6):
+        top = 8 if chk.tier == "thorough" else 6  # thorough: all 1 156 patterns of up to 7 columns
+        for size in range(0, top):
             for lab in _partitions(size):
                 n += 1
                 vals = [("col", x) for x in lab]
@@ -310,7 +311,7 @@ def r11_3(chk):
         lab, out = bad[0]
         chk.violation("R11.3", k, m.loc(fn), f"{len(bad)} of {n} equality patterns are compressed wrongly, e.g. columns with pattern {lab} give {out!r}: identical columns are not merged with their multiplicity, so lnL changes when columns repeat or move")
     else:
-        chk.ok("R11.3", k, m.loc(fn), f"all {n} equality patterns of 0..5 columns: unique/index/counts consistent")
+        chk.ok("R11.3", k, m.loc(fn), f"all {n} equality patterns of 0..{top - 1} columns: unique/index/counts consistent")
     chk.extra["R11.3_patterns"] = n
     # both users of the compression unpack it in the order it is returned
     for q in ("_LikelihoodTreeEdge.__init__", "make_likelihood_tree_leaf"):
